@@ -13,7 +13,8 @@ p = subprocess.run(['/venv/bin/python', '-m', 'pytest', '-q', '-p', 'no:cachepro
                     '--continue-on-collection-errors', f'--junitxml={junit}'] + extra,
                    cwd=repo, env=env, stdout=subprocess.PIPE, stderr=subprocess.STDOUT, text=True)
 passed = set()
-norm = lambda s: s.replace(repo.replace('/', '_'), '_repo')
+import re
+norm = lambda s: s.replace(re.sub(r'\W', '_', repo), '_repo').replace(repo.replace('/', '_'), '_repo')
 for tc in ET.parse(junit).getroot().iter('testcase'):
     if not any(c.tag in ('failure', 'error', 'skipped') for c in tc):
         passed.add(norm(f"{tc.get('classname')}::{tc.get('name')}"))
